@@ -29,7 +29,12 @@
     * the prefixed forms  B'…'  X'…'  N'…'  U&'…'  U&"…"  (a word b/x/n directly followed by a quote, u followed by &),
     * a zero-length quoted identifier `""` (an error in PostgreSQL too),
     * a number directly followed by an identifier character ("trailing junk", an error since PostgreSQL 15),
-    * a `$` that starts neither a parameter nor a dollar-quote delimiter, NUL, VT outside a token (white space only since
+    * a NUL byte ANYWHERE — between tokens and inside a token (string constant, quoted identifier, comment, dollar-quoted
+      string): the scanner's input is a C string (scanner_init takes `const char *str` and strlen(str)), so PostgreSQL never
+      sees what follows a NUL, and psql (a line-oriented reader over C strings) drops the rest of the LINE after one —
+      closing quote included.  No reading of such text is the reading of the text as written; `next` refuses every token
+      whose bytes hold a NUL,
+    * a `$` that starts neither a parameter nor a dollar-quote delimiter, VT outside a token (white space only since
       PostgreSQL 16), and any other byte scan.l rejects,
     * anything unterminated.
   Identifier truncation to 63 bytes (NAMEDATALEN) is not modelled: stored names are at most 63 bytes.
@@ -190,9 +195,9 @@ def scanOp (bs : Bytes) : Bytes × Bytes :=
     (s.1, s.2 ++ r.2)
   else r
 
-/-- One step of the lexer: `none` = lexical error (or a construct this definition refuses, see the header);
+/-- One step of the lexer on NUL-free input: `none` = lexical error (or a construct this definition refuses, see the header);
 `some (none, rest)` = white space skipped; `some (some t, rest)` = token `t` recognised, `rest` follows it. -/
-def next : Bytes → Option (Option Tok × Bytes)
+def next0 : Bytes → Option (Option Tok × Bytes)
   | [] => none
   | c :: t =>
     if isSpace c then some (none, t)
@@ -239,6 +244,13 @@ def next : Bytes → Option (Option Tok × Bytes)
       let r := scanOp (c :: t)
       some (some (.op r.1), r.2)
     else none
+
+/-- One step of the lexer: the step of `next0`, refused when the bytes it consumed (the token, or the white space) hold a
+NUL — a NUL inside a string constant, a quoted identifier, a comment or a dollar-quoted string included (see the header). -/
+def next (bs : Bytes) : Option (Option Tok × Bytes) :=
+  match next0 bs with
+  | none => none
+  | some (tok, rest) => if (bs.take (bs.length - rest.length)).contains 0 then none else some (tok, rest)
 
 /-- the token sequence of `bs`; the fuel only has to exceed the length (every step must consume input) -/
 def lexF : Nat → Bytes → Option (List Tok)
